@@ -51,6 +51,10 @@ CLAIMED = {
     text="Proof: for every history of message_callback_add/replace/remove (also from inside running callbacks, snapshot semantics) and every delivered message with a valid topic name, the callbacks run are exactly the registered ones whose filter spec-matches, each once; on_message runs iff none matches; an undecodable topic runs on_message only (checker c15_ok, extracted and applied to logs of the real client).",
     ref="4.15", technique="Coq proof: corollary of the trie refinement plus a dispatch lemma over all histories; differential execution through the real loop_read at QoS 0/1/2",
     note="Trusted as C11. Topic names containing wildcard levels (invalid per MQTT-3.3.2-2) are outside the statement; witnessed double dispatch recorded."),
+ "C18": dict(
+    text="Proof: the lock/call graph of Client (every `with self._lock`, try-lock guard, method call, user-callback site; lock kinds from __init__) is regenerated from client.py on every run by a fail-closed translator; a verified decision procedure (closed-set soundness theorem proved once for every program) applied to it by vm_compute shows that no execution of any length or callback->API->callback nesting depth re-acquires a held plain lock: publish/subscribe/unsubscribe/disconnect/reconnect/message_callback_add/remove/loop_stop (and connect/connect_async) called from inside any of the 14 callback kinds never self-deadlock, with all socket callbacks installed. Statement 3 (the packet is written by the enclosing or next loop iteration) is proved on a small model of _packet_queue's guard and checked on the implementation for the full product callback x API x loop variant x socket callbacks x version. Open findings F-C18d (reconnect inside on_disconnect: new socket closed) and F-C18e (loop_stop from an application-thread callback) are outside the one-thread lock model and reported as known findings.",
+    ref="4.18", technique="Coq: verified reachability checker applied by vm_compute to a lock/call graph translated from the source on every run; instrumented-lock conversations on the real client",
+    note="Trusted: Coq kernel, the lockgraph translator (fail closed; cross-checked against observed lock sets), harness. One-thread model: Thread.join in loop_stop is exact only on the loop thread; control flow over-approximated; threading.Lock/RLock semantics."),
 }
 PENDING = {}
 for i in range(1, 21):
